@@ -3,6 +3,7 @@ model to /repo, which theorems must exist, what is trusted / partial."""
 
 PROPS = {
     "C15": {
+        "technique": "Lean 4 theorems for every environment list + raw-envp differential in a re-exec'd child",
         "suites": [{"name": "env", "quick": 600, "thorough": 8000}],
         "required_theorems": ["C15_overrides_effective", "C15_overrides_last", "C15_passthrough",
                               "C15_passthrough_order", "C15_effective_passthrough"],
@@ -17,6 +18,7 @@ PROPS = {
 }
 
 PROPS["C08"] = {
+    "technique": 'Lean 4 theorems over exact rationals on the shared alert pipeline + differential and oracles on both backends',
     "suites": [{"name": "match", "quick": 1200, "thorough": 6000}],
     "required_theorems": ["C08_alert_ge_threshold", "C08_alert_veto", "C08_conf_range", "C08_alerts_sorted",
                           "C08_threshold_antitone", "C08_exact_in_full_json"],
@@ -27,6 +29,7 @@ PROPS["C08"] = {
     "assumptions": ["signature tolerances >= 0, entropies on a 1/64 grid in the differential"],
 }
 PROPS["C05"] = {
+    "technique": 'Lean 4 proof that match(t, index(t)) = 1 and is reported by both backends + index/scan differential on generated Go sources',
     "suites": [{"name": "match", "quick": 250, "thorough": 6000}, {"name": "indexscan", "quick": 3, "thorough": 30, "timeout": 3000}],
     "required_theorems": ["C05_self_match", "C05_found_in_alerts", "C05_found_exact_json"],
     "level_text": "Kernel-checked: MatchSignature(t, IndexFunction(t)) has confidence exactly 1 for every topology, hash value and default tolerance, hence the indexed signature is reported by the alert pipeline of either backend at every threshold <= 1 and by JSON exact mode. Tie: IndexFunction, GenerateTopologyHash (model SHA-256), GenerateFuzzyHash, MatchSignature differential; self-match evaluated on the real code for every generated topology.",
@@ -35,6 +38,7 @@ PROPS["C05"] = {
     "trusted_base": ["go/packages + go/ssa construction and topology.ExtractTopology are exercised, not modelled"],
 }
 PROPS["C19"] = {
+    "technique": 'Lean 4 theorems on similarity (symmetry, range, identity) and on rename pairing + similarity and diff-report differentials',
     "lean_modules": ["SfwModel.Props.C19", "SfwModel.Props.C09"],
     "suites": [{"name": "sim", "quick": 1500, "thorough": 40000}, {"name": "diffreport", "quick": 8, "thorough": 150, "timeout": 3000}],
     "required_theorems": ["C19_sim_symm", "C19_sim_range", "C19_sim_self", "C19_sim_eq_one_of_eq_features",
@@ -45,6 +49,7 @@ PROPS["C19"] = {
     "trusted_base": ["frequency maps are modelled as duplicate-free association lists (hypothesis NodupKeys in the theorems)"],
 }
 PROPS["C20"] = {
+    "technique": 'Lean 4 theorems on the path guard over an abstract file system with symlinks + path-spelling differential through the real guard (guard-only hook)',
     "suites": [{"name": "pathguard"}],
     "required_theorems": ["C20_guard_refuses_iff", "C20_guard_passes_outside", "C20_inside_iff_string",
                           "C20_resolve_eq_real", "C20_resolve_no_symlink", "C20_old_guard_lookalike"],
@@ -53,6 +58,7 @@ PROPS["C20"] = {
     "trusted_base": ["filepath.EvalSymlinks / os.Getwd behaviour as modelled by evalSym/absComps", "hook H2 (guard-only probe) placed directly after the sanitisation block"],
 }
 PROPS["C06"] = {
+    "technique": 'Lean 4 refinement proof (KV with indexes refines ID -> Signature, every history) + op-sequence differential on a real Pebble',
     "suites": [{"name": "store", "quick": 200, "thorough": 1500, "timeout": 3000}],
     "required_theorems": ["C06_inv_init", "C06_inv_step", "C06_reachable_inv", "C06_abs_nodup", "C06_abs_step", "C06_get_eq",
                           "C06_byTopology_eq", "C06_candidates_eq", "C06_scanFull_eq", "C06_scanExact_sound",
@@ -65,6 +71,7 @@ PROPS["C06"] = {
 }
 
 PROPS["C14"] = {
+    "technique": 'Lean 4 theorems on the sandbox specification model + whole-Spec differential on generated mount sets',
     "suites": [{"name": "sandbox", "quick": 400, "thorough": 8000}],
     "required_theorems": ["C14_lockdown", "C14_binds_readonly", "C14_parent_first", "C14_reserved_rejected",
                           "C14_user_mounts", "C14_escape_rejected"],
@@ -73,6 +80,7 @@ PROPS["C14"] = {
     "trusted_base": ["filepath.Abs = lexical clean of cwd-joined path", "host observations (lib paths exist, EvalSymlinks results) gathered by the harness with the standard library"],
 }
 PROPS["C13"] = {
+    "technique": 'Lean 4 proof of fail-closed decision logic and envelope integrity + scripted HTTP provider driving the real audit path, byte-level payload differential',
     "suites": [{"name": "audit", "quick": 500, "thorough": 12000, "timeout": 3000}],
     "required_theorems": ["C13_fail_closed", "C13_faults_never_pass", "C13_retry_bound", "C13_exit_total", "C13_verdict_exact",
                           "C13_lex_roundtrip", "C13_payload_lines", "C13_markers_once", "C13_truncate", "C13_escape_no_newline"],
@@ -82,6 +90,7 @@ PROPS["C13"] = {
     "partial": "the Gemini provider's retry loop (genai SDK) is not scripted; invalid UTF-8 in commit messages goes through the Go-side envelope oracle only",
 }
 PROPS["C07"] = {
+    "technique": 'Lean 4 proof over crash prefixes of the batch log + SIGKILL / power-loss fault enumeration on the real store',
     "suites": [{"name": "crash", "quick": 16, "thorough": 0, "timeout": 3000}],
     "required_theorems": ["C07_single_batch", "C07_crash_atomic", "C07_log_replay", "C07_history_crash_consistent",
                           "C07_rebuild_crash_keeps_records", "C07_rebuild_crash_recordsOk", "C07_rebuild_repairs"],
@@ -91,6 +100,7 @@ PROPS["C07"] = {
     "trusted_base": ["pebble.Batch.Commit(Sync) is atomic and durable", "vfs.NewStrictMem drop-unsynced semantics / SIGKILL process-death semantics"],
 }
 PROPS["C18"] = {
+    "technique": 'Lean 4 theorems on migration/export, truncation and the atomic-replace protocol + every-byte truncation and strace correspondence',
     "suites": [{"name": "migrate", "timeout": 3000}],
     "required_theorems": ["C18_migrate_eq", "C18_migrate_inv", "C18_export_migrate", "C18_get_after_add", "C18_get_after_batch",
                           "C18_json_get_after_add", "C18_json_get_after_batch", "C18_full_file_ok", "C18_truncation_reported",
@@ -100,6 +110,7 @@ PROPS["C18"] = {
     "trusted_base": ["encoding/json Decoder token semantics (abstracted, validated on every byte cut)", "kernel rename(2) atomicity / fsync durability"],
 }
 PROPS["C11"] = {
+    "technique": 'Lean 4 interleaving theorem (scan = pure scan of one snapped version) + race-detector stress with a model-computed version-window oracle',
     "suites": [{"name": "concurrent", "race": True, "timeout": 3000}],
     "required_theorems": ["C11_scan_linearises", "C11_snapshot_in_window", "C11_versions_stable",
                           "C11_scan_correct_for_version", "C11_mixed_read_counterexample"],
@@ -109,6 +120,7 @@ PROPS["C11"] = {
     "trusted_base": ["pebble.Snapshot isolation", "Go race detector (sampled schedules)"],
 }
 PROPS["C09"] = {
+    "technique": "Lean 4 theorems on the matcher/report bookkeeping and the zipper's map bookkeeping + regenerated go/ast facts + oracle on the real zipper maps",
     "lean_modules": ["SfwModel.Props.C09", "SfwModel.Props.C09Zipper", "SfwModel.Props.C09Facts"],
     "suites": [{"name": "diffreport", "quick": 10, "thorough": 150, "timeout": 3000}],
     "required_theorems": ["C09_old_partition", "C09_new_partition", "C09_same_name_paired", "C09_byName_iff",
@@ -120,6 +132,7 @@ PROPS["C09"] = {
     "trusted_base": ["go/ssa construction; topology.ExtractTopology (fed to the model as data)", "hook VerifInstrMaps (read-only accessor)"],
 }
 PROPS["C10"] = {
+    "technique": 'Lean 4 permutation-invariance theorems (matcher, total alert order, result slots) + regenerated facts tying the sort key + repeated runs of the real binary',
     "lean_modules": ["SfwModel.Props.C10", "SfwModel.Props.C10Facts", "SfwModel.Props.C09"],
     "suites": [{"name": "repeat", "timeout": 3000}, {"name": "diffreport", "quick": 6, "thorough": 60, "timeout": 3000}],
     "needs_sfw": True,
@@ -131,6 +144,7 @@ PROPS["C10"] = {
     "trusted_base": ["Go runtime scheduler and map iteration (sampled)", "sort.SliceStable is a stable sort (modelled as mergeSort)"],
 }
 PROPS["C12"] = {
+    "technique": 'Lean 4 proof of the closed form and of trip-count soundness against reference loop semantics + natively executed instrumented twin loops',
     "also": ["C01"],   # the shared canon correspondence suite tags its violations C01
     "suites": [{"name": "loops", "quick": 150, "thorough": 3000, "timeout": 3000}, {"name": "canon", "timeout": 3000}],
     "lean_modules": ["SfwModel.Props.C12"],
@@ -143,6 +157,7 @@ PROPS["C12"] = {
     "trusted_base": ["go/ssa construction and the Go compiler (native twin)", "SCEV.eval / harness evalSCEV as the meaning of a trip-count expression"],
 }
 PROPS["C01"] = {
+    "technique": 'Lean 4 proof of the pool protocol (any pool content, any interleaving) + `decide` theorems over go/ast facts regenerated from the source + byte-for-byte correspondence of the Lean canonicaliser + repeat/concurrent/other-process differential',
     "suites": [{"name": "fpdet", "timeout": 3000}, {"name": "canon", "timeout": 3000}],
     "lean_modules": ["SfwModel.Props.C01", "SfwModel.Props.C01Facts", "SfwModel.Props.C10"],
     "required_theorems": ["C01_pool_history_independent", "C01_history", "C01_concurrent_results_fresh",
@@ -154,6 +169,7 @@ PROPS["C01"] = {
     "trusted_base": ["go/packages, go/ssa (deterministic construction)", "harness/extract (go/ast fact extractor)", "sync.Pool hands out an object to one goroutine at a time"],
 }
 PROPS["C02"] = {
+    "technique": 'Lean 4 theorems on each normalisation of the Lean canonicaliser (tied byte for byte to the real one) + refactoring catalogue on generated Go with real fingerprints',
     "also": ["C01"],   # the shared canon correspondence suite tags its violations C01
     "suites": [{"name": "refactor", "timeout": 3000}, {"name": "canon", "timeout": 3000}],
     "lean_modules": ["SfwModel.Props.C02"],
@@ -166,6 +182,7 @@ PROPS["C02"] = {
     "trusted_base": ["go/ssa lowering (renaming and reformatting do not change the SSA; the exporter drops names)", "harness AST rewriter (cosmetic catalogue)"],
 }
 PROPS["C03"] = {
+    "technique": 'Lean 4 theorems on every normalisation guard + native execution of (P, edited Q) pairs as the behavioural oracle for fingerprint collisions',
     "also": ["C01"],   # the shared canon correspondence suite tags its violations C01
     "suites": [{"name": "collide", "timeout": 3000}, {"name": "canon", "timeout": 3000}],
     "lean_modules": ["SfwModel.Props.C03"],
@@ -178,6 +195,7 @@ PROPS["C03"] = {
     "trusted_base": ["the Go compiler and runtime (native execution of P and Q)", "go/ssa"],
 }
 PROPS["C04"] = {
+    "technique": "Lean 4 proof of CompareFunctions' decision logic + native execution of (old, new) pairs against the real diff status",
     "suites": [{"name": "collide", "timeout": 3000}],
     "lean_modules": ["SfwModel.Props.C04", "SfwModel.Props.C09Zipper"],
     "required_theorems": ["C04_preserved_iff", "C04_identical_copy_preserved", "C04_oversized_never_zipper_preserved",
@@ -188,6 +206,7 @@ PROPS["C04"] = {
     "trusted_base": ["the Go compiler and runtime (native execution)", "diff.Zipper's areEquivalent (exercised, not modelled)"],
 }
 PROPS["C16"] = {
+    "technique": 'Lean 4 proof that the walker collects exactly the declared files (any tree) and of slot/strict logic + on-disk tree differential and go/parser coverage oracle',
     "suites": [{"name": "walk", "quick": 150, "thorough": 3000, "timeout": 3000}],
     "lean_modules": ["SfwModel.Props.C16"],
     "required_theorems": ["C16_collect_iff", "C16_collected_are_files", "C16_collect_sublist", "C16_one_slot_per_file",
@@ -199,6 +218,7 @@ PROPS["C16"] = {
     "trusted_base": ["filepath.WalkDir visits entries in lexical order and honours SkipDir", "go/packages, go/ssa, go/parser"],
 }
 PROPS["C17"] = {
+    "technique": "Lean 4 cost-bound proof for the zipper's matching loops + total (terminating) model of every guarded traversal + operation counter on adversarial families",
     "also": ["C01"],   # the shared canon correspondence suite tags its violations C01
     "suites": [{"name": "dos", "timeout": 3000}, {"name": "canon", "timeout": 3000}],
     "lean_modules": ["SfwModel.Props.C17"],
